@@ -3,6 +3,8 @@
   restricting index ranges, swapping sums, and the relation between a domain mask and the domain sum.
 -/
 import NiftyVerif.Lemmas.ExprCalc
+import Mathlib.Algebra.BigOperators.Group.Finset.Basic
+import Mathlib.Algebra.BigOperators.Ring.Finset
 
 set_option linter.unusedSimpArgs false
 namespace NiftyVerif.Expr
@@ -241,5 +243,41 @@ theorem contr_adj (Ks : List String) (N : Nat) (hK : Ks.Nodup) (h0 : "" ∈ Ks) 
     simp only [ipB, bcast, mask]
     exact dsum_congr _ _ _ (fun k i => by split <;> ring)
   rw [e, dsum_box_mask Ks N hK d hd, dsum_mul_left]
+
+theorem rsum_eq_sum (n : Nat) (f : Nat → ℝ) : rsum n f = ∑ i ∈ Finset.range n, f i := by
+  induction n with
+  | zero => simp [rsum]
+  | succ n ih => rw [rsum_succ, Finset.sum_range_succ, ih]
+
+/-- rearranging the triple sum of a bilinear map: `⟨y, τ(u', v) + τ(u, v')⟩ = ⟨τᵀ¹(v, y), u'⟩ + ⟨τᵀ²(u, y), v'⟩` -/
+theorem bil_adj_algebra (m na nb : Nat) (τ : Nat → Nat → Nat → ℝ) (y u u' v v' : Nat → ℝ) :
+    rsum m (fun o => y o * rsum na (fun i => rsum nb (fun j => τ o i j * (u' i * v j + u i * v' j))))
+    = rsum na (fun i => rsum m (fun o => rsum nb (fun j => τ o i j * v j * y o)) * u' i)
+      + rsum nb (fun j => rsum m (fun o => rsum na (fun i => τ o i j * u i * y o)) * v' j) := by
+  simp only [rsum_eq_sum]
+  have h1 : ∑ o ∈ Finset.range m, y o * ∑ i ∈ Finset.range na, ∑ j ∈ Finset.range nb, τ o i j * (u' i * v j + u i * v' j)
+      = (∑ o ∈ Finset.range m, ∑ i ∈ Finset.range na, ∑ j ∈ Finset.range nb, τ o i j * v j * y o * u' i)
+        + ∑ o ∈ Finset.range m, ∑ i ∈ Finset.range na, ∑ j ∈ Finset.range nb, τ o i j * u i * y o * v' j := by
+    rw [← Finset.sum_add_distrib]
+    refine Finset.sum_congr rfl (fun o _ => ?_)
+    rw [Finset.mul_sum, ← Finset.sum_add_distrib]
+    refine Finset.sum_congr rfl (fun i _ => ?_)
+    rw [Finset.mul_sum, ← Finset.sum_add_distrib]
+    refine Finset.sum_congr rfl (fun j _ => ?_)
+    ring
+  rw [h1]
+  congr 1
+  · rw [Finset.sum_comm]
+    refine Finset.sum_congr rfl (fun i _ => ?_)
+    rw [Finset.sum_mul]
+    refine Finset.sum_congr rfl (fun o _ => ?_)
+    rw [Finset.sum_mul]
+  · have h2 : ∀ o, ∑ i ∈ Finset.range na, ∑ j ∈ Finset.range nb, τ o i j * u i * y o * v' j
+        = ∑ j ∈ Finset.range nb, ∑ i ∈ Finset.range na, τ o i j * u i * y o * v' j := fun o => Finset.sum_comm
+    rw [Finset.sum_congr rfl (fun o _ => h2 o), Finset.sum_comm]
+    refine Finset.sum_congr rfl (fun j _ => ?_)
+    rw [Finset.sum_mul]
+    refine Finset.sum_congr rfl (fun o _ => ?_)
+    rw [Finset.sum_mul]
 
 end NiftyVerif.Expr
